@@ -432,6 +432,15 @@ fn do_write(s: &Spec, cap: usize, o: &mut Oracle) -> String {
                     }
                 }
             }
+            // `Ok` although payload + token did not fit the writer's 2048-byte ArrayVec: the packet that was
+            // written carries a truncated payload/token and no error was reported (outside C05's `Valid`;
+            // an explicit outcome of the model, `WriteResult.okTruncated`)
+            if let Spec::Chunks(_, Some(_), _, _, d) = s {
+                if d.len() + TOKEN_SIZE > 2048 {
+                    o.count("silent_truncation_ok_returned");
+                    return format!("truncated {}", to_hex(&bytes));
+                }
+            }
             format!("ok {}", to_hex(&bytes))
         }
     }
